@@ -118,12 +118,12 @@ func SV_C08_crash_restart() {
 // with the validator identity of party A and with every rotation of every
 // map iteration order.
 //
-// sv:bounds genesis with 2 validators and symbolic funded balances; block 3 carries one SEND A->B with arbitrary amount/currency/fee, block 4 is empty; replica 2 = validator A's node key, and every rotation of the iteration order of every Go map ranged over during its two blocks (maps of 2..4 entries)
+// sv:bounds genesis with 4 validators in the last commit, two of them below the minimum self delegation (both purged at the first block end), unstakes of A maturing at blocks 3 and 4, symbolic funded balances; block 3 carries one SEND A->B with arbitrary amount/currency/fee, block 4 is empty; replica 2 = validator A's node key, and every rotation of the iteration order of every Go map ranged over during its two blocks (maps of 2..4 entries)
 // sv:outside wall clock and uuid sources (not reached by these blocks), the cross-chain witness role and job store (no tracker in these blocks), other transaction kinds and block-level hooks with non-empty inputs (allegations, proposals, trackers), IAVL internals, float behaviour on other CPU architectures
 // sv:goal same DeliverTx results, validator updates and ordered write sets in both blocks
 func SV_C01_node_identity_and_map_order() {
 	sv.NominalSizes(64)
-	nv := 2
+	nv := 4
 	fundA, fundB := svNonNeg("fundA"), svNonNeg("fundB")
 	mk := func(validatorNode bool) *App {
 		app := svNewApp()
@@ -132,7 +132,7 @@ func SV_C01_node_identity_and_map_order() {
 			app.Context.node = node.SVNewContext("nodeA", keys.PrivateKey{Keytype: keys.ED25519, Data: p.Priv[:]})
 		}
 		svInstallIndexer()
-		svGenesisWithValidators(app, []int64{3000000, 3000000})
+		svGenesisWithValidators(app, []int64{3000000, 3000000, 100, 200})
 		svFundOLT(app, svParty_(0).Addr, fundA)
 		svFundOLT(app, svParty_(1).Addr, fundB)
 		svCommitBlock(app)
